@@ -1,5 +1,5 @@
 """C02 — Model edits do exactly what they document; cross-references stay consistent."""
-from contracts import c15_dictlist, misc_small, c02_xref  # noqa
+from contracts import c15_dictlist, misc_small, c02_xref, c02_rename, c02_boundary  # noqa
 from props._generic import run_property, replay_with_driver
 
 LEVEL = "other"
@@ -9,10 +9,14 @@ KEYS = ["DictList." + k for k in ("append extend _extend_nocheck remove __isub__
                                   "has_id index __contains__ union __iadd__ add").split()] + [
     "Reaction.copy", "Reaction._associate_gene", "Reaction._dissociate_gene", "Group.add_members", "Group.remove_members",
     "Model.get_associated_groups"]
+# contracts with their own hook tables: renaming / removal wrappers (ghost trace of the Model calls), add_boundary (decision table)
+RENAME_KEYS = ["Reaction._set_id_with_model", "Metabolite._set_id_with_model", "Reaction.remove_from_model", "Reaction.delete",
+               "Metabolite.remove_from_model", "Variable.name@setter", "Constraint.name@setter", "Container.__getitem__"]
+BOUNDARY_KEYS = ["Model.add_boundary"]
 
 
 def run(rep):
-    run_property(rep, KEYS, explanation=(
+    run_property(rep, KEYS, more=[(RENAME_KEYS, c02_rename.HOOKS), (BOUNDARY_KEYS, c02_boundary.HOOKS)], explanation=(
         "Deductive part: the clauses `identifiers are unique` and `every listed object is the one found by looking up its "
         "identifier` hold because every model edit changes model.reactions/metabolites/genes/groups only through the DictList "
         "operations listed here, each proved (C15 contracts, unbounded) to preserve the representation invariant and to produce "
@@ -20,12 +24,33 @@ def run(rep):
         "model are added) is proved to leave all model pointers of its operand as found; the primitive cross-reference updates "
         "Reaction._associate_gene/_dissociate_gene are proved to update both directions (reaction lists gene iff gene lists reaction "
         "for the pair, nothing else touched), Group.add_members/remove_members to add/remove exactly the listed members of exactly "
-        "that group, Model.get_associated_groups to return exactly the groups containing the element, in order. The documented effect of each public "
+        "that group, Model.get_associated_groups to return exactly the groups containing the element, in order. Renaming an object that "
+        "belongs to a model (Reaction._set_id_with_model, Metabolite._set_id_with_model): an id already in the list raises ValueError "
+        "and changes nothing; otherwise exactly this object's id becomes the new id, the model's DictList is well formed again with "
+        "the same members at the same positions, lookup by the new id finds the object, the old id is gone, every other key is found "
+        "as before, and the solver objects are renamed in step (C01); for a reaction whose new id or reverse id optlang refuses as a "
+        "variable name (white space) ValueError is raised and nothing has changed - id, list, index, both variable names (the "
+        "original body left id and index changed: defect found with this contract, repaired in /repo acce6db). Preconditions: the "
+        "object is listed in its model's well-formed DictList, solver in step at entry; for a metabolite also that optlang accepts "
+        "the new name (its constraint is renamed first, so a refused name raises before anything changed). The wrappers "
+        "Reaction.remove_from_model / delete and Metabolite.remove_from_model make exactly one call Model.remove_reactions([self], "
+        "remove_orphans=<as given>) resp. Model.remove_metabolites(self, <destructive as given>) on the object's own model (precondition: it belongs to one). "
+        "Model.add_boundary follows the decision table of its docstring for every shape of its optional arguments (exchange / demand "
+        "/ sink / custom: id prefix EX_/DM_/SK_ + metabolite id unless reaction_id is given; bounds given or configured, demand lower "
+        "bound 0; default SBO term unless a non-empty one is given; name = metabolite name + ' ' + type; exactly {metabolite: -1} "
+        "through one add_metabolites call; then one add_reactions([rxn]) call and rxn returned; the three ValueErrors - exchange of a "
+        "metabolite outside the compartment find_external_compartment reports, custom type without id, id already in the model - "
+        "with nothing handed to the model), find_external_compartment / the Reaction constructor / add_metabolites / add_reactions "
+        "being abstract calls. The documented effect of each public "
         "editing operation on stoichiometry, gene sets, back-references and groups (add_reactions re-pointing, add_metabolites "
-        "combine/replace, update_genes_from_gpr, remove_* with orphans, remove_genes/rename_genes, add_boundary, merge) is NOT "
+        "combine/replace, update_genes_from_gpr, remove_* with orphans, remove_genes/rename_genes, merge) is NOT "
         "proved - those functions mix sympy/optlang calls, string parsing and nested loops outside the supported subset: bounded "
         "driver (histories compared step by step with an executable reference description + Inv_XRef after every step)."),
-        trusted=["CPython list/dict semantics as axiomatised", "copy.deepcopy returns a fresh detached object (assumed)"])
+        trusted=["CPython list/dict semantics as axiomatised", "copy.deepcopy returns a fresh detached object (assumed)",
+                 "reverse_id is a function of the current id; model.variables[...] finds the reaction's variables (assumed getters)",
+                 "add_boundary: Reaction constructor stores id/name/bounds as given with an empty annotation dict; "
+                 "find_external_compartment, Reaction.add_metabolites, Model.add_reactions abstract (ghost trace); f-strings as opaque "
+                 "concatenation of uninterpreted identifiers"])
 
 
 def replay(payload):
